@@ -23,7 +23,7 @@ ASSUMPTIONS = ['exported text compared modulo value-preserving sign-run normalis
 
 NUMS = [G.leaf('2', N(2)), G.leaf('3', N(3)), G.leaf('5', N(5)), G.leaf('7', N(7))]
 ALT_LEAVES = [G.leaf('4', N(4)), G.leaf('"3"', T('3')), G.leaf('TRUE', B(True)), G.leaf('#N/A', NA), G.leaf('B1', None),
-              G.leaf('"ab"', T('ab')), G.leaf('0.5', N(0.5))]
+              G.leaf('"ab"', T('ab')), G.leaf('0.5', N(0.5)), G.leaf('""', T(''))]
 ENV = {'B1': N(6)}
 REPS = ['=', '&', '+', '*', '^']
 
@@ -339,6 +339,9 @@ def case_cases(tier):
         yield ['case', 'fn', f, '']
     for f in ['B1+c1', 'b1+C1', '$b$1+c$1', 'B1 + C1']:
         yield ['case', 'ref', f, '']
+    for t in ['#N/A', '#n/a', '#Ref!', '#div/0!', '#Value!', '#NUM!', '#name?', '#null!']:
+        for u in ['', '-', 'NOT(%s)', 'IFERROR(%s,1)', '{1,%s}', '1+%s']:
+            yield ['case', 'err', t, u]
 
 
 def run_casevar(case):
@@ -348,9 +351,18 @@ def run_casevar(case):
     if st != 'ok':
         return result(1, ['rejected'], [Fail('rejected-valid', got=st, exp='accepted', text=text, part='case')])
     got = b[-1].get_expr
-    canon = {'lit': (u % t.upper()) if '%s' in u else u + t.upper(), 'fn': 'SUM(1, 2)', 'ref': '(B1 + C1)'}[kind]
+    canon = {'lit': (u % t.upper()) if '%s' in u else u + t.upper(), 'fn': 'SUM(1, 2)', 'ref': '(B1 + C1)', 'err': None}[kind]
     fails = []
-    if got.upper() != canon.upper():
+    if kind == 'err':
+        # the same text with the literal in upper case is the reference: same export, same value
+        st2, b2 = parse('=' + ((u % t.upper()) if '%s' in u else u + t.upper()))
+        if st2 != 'ok' or b2[-1].get_expr != got:
+            fails.append(Fail('export', got=got, exp=b2[-1].get_expr if st2 == 'ok' else st2, text=text, part='case', signrun=False))
+        else:
+            v1, v2 = value_of(b), value_of(b2)
+            if v1 != v2 or (v1[0] == 'BAD' and not v1[1].startswith('shape')):
+                fails.append(Fail('value', got=v1, exp=[str(v2)], text=text, spelling='case', signrun=False))
+    elif got.upper() != canon.upper():
         fails.append(Fail('export', got=got, exp=canon, text=text, part='case', signrun=False))
     return result(1, ['case:' + kind], fails)
 
